@@ -29,7 +29,15 @@ func (g *GenericPlanner) WrapProcess(ctx *shared.PlannerContext,
 			}()
 		}
 		defer close(out)
-		defer func() { shared.TamePanic(out) }()
+		// however this stage ends (end of input, error, recovered panic) the upstream must not stay
+		// blocked on its send
+		defer func() {
+			go func() {
+				for range _in {
+				}
+			}()
+		}()
+		defer shared.TamePanic(out)
 		for entries := range _in {
 			for i := range entries {
 				err := ops.OnEntry(&entries[i])
